@@ -468,7 +468,7 @@ func redactPipelineStage(stage interface{}, redactFieldNames bool, keyPath []str
 											isSelectivelyRedactable := isRedactableFieldPatternInArray(subVTyped)
 											newSubMap.Set(subK, redactArrayValues(subVTyped, redactFieldNames, inSearchStage, isSelectivelyRedactable, append(newKeyPath, subK)))
 										default:
-											newSubMap.Set(subK, redactScalarValue([]string{k}, subV, inSearchStage, false))
+											newSubMap.Set(subK, redactScalarValue(append(newKeyPath, subK), subV, inSearchStage, false))
 										}
 									} else if subVMap, ok := subV.(*orderedmap.OrderedMap[string, any]); ok && !inSearchStage {
 										// an expression, not a field path: its literals are redacted
@@ -522,7 +522,7 @@ func redactPipelineStage(stage interface{}, redactFieldNames bool, keyPath []str
 							isSelectivelyRedactable := isRedactableFieldPatternInArray(subVTyped)
 							newSubMap.Set(redactedSubK, redactArrayValues(subVTyped, redactFieldNames, inSearchStage, isSelectivelyRedactable, append(newKeyPath, subK)))
 						default:
-							newSubMap.Set(redactedSubK, redactScalarValue([]string{k}, subV, inSearchStage, false))
+							newSubMap.Set(redactedSubK, redactScalarValue(append(newKeyPath, subK), subV, inSearchStage, false))
 						}
 					}
 					newMap.Set(redactedKey, newSubMap)
